@@ -8,6 +8,7 @@ import (
 	"math/rand"
 	"sort"
 	"strings"
+	"unicode/utf8"
 
 	"go.opentelemetry.io/otel/sdk/verifh/vh"
 )
@@ -171,8 +172,34 @@ func finishAS(as []Attr) []Attr {
 	sort.Strings(vals)
 	for i := range as {
 		as[i].R = sort.SearchStrings(vals, as[i].V)
+		as[i].N = utf8.RuneCountInString(render(as[i].K)) + utf8.RuneCountInString(as[i].V)
 	}
 	return as
+}
+
+// filteredAttrs: attributes the scenario's view removes from the stream; they only show up as exemplar
+// labels. Prometheus allows 128 runes of exemplar labels, trace_id + span_id take 63: 65 runes of filtered
+// keys + values are exactly at the limit. Keys are distinct after sanitisation and start with "x".
+func filteredAttrs(r *rand.Rand) []Attr {
+	pad := func(n int) string { return strings.Repeat("m", n) }
+	ua := []Tok{w("x"), sep("."), w("ua")} // 4 runes
+	switch r.Intn(7) {
+	case 0:
+		return []Attr{{K: ua, T: "s", V: "fa", F: true}} // small
+	case 1:
+		return []Attr{{K: ua, T: "s", V: pad(61), F: true}} // exactly at the limit
+	case 2:
+		return []Attr{{K: ua, T: "s", V: pad(62), F: true}} // one over
+	case 3:
+		return []Attr{{K: ua, T: "s", V: "Mozilla/5.0 (X11; Linux x86_64) AppleWebKit/537.36 Chrome/126 Safari/53", F: true},
+			{K: []Tok{w("x"), sep("-"), w("n")}, T: "i", V: "42", F: true}} // far over
+	case 4:
+		return []Attr{{K: ua, T: "s", V: pad(30), F: true}, {K: []Tok{w("x"), {C: "bad", S: " "}, w("b")}, T: "b", V: "true", F: true},
+			{K: []Tok{w("x"), sep("/"), {C: "bad", S: "é"}}, T: "s", V: pad(61 - 30 - 3 - 4 - 3), F: true}} // three labels, at the limit (4+30, 3+4, 3+21)
+	case 5:
+		return []Attr{{K: ua, T: "s", V: "世界", F: true}, {K: []Tok{w("x"), sep("_"), w("n")}, T: "i", V: "7", F: true}}
+	}
+	return []Attr{} // exemplar with trace_id / span_id only
 }
 
 func genAS(r *rand.Rand, n int, colon bool, extra [][]Tok) []Attr {
@@ -266,14 +293,35 @@ func genScenario(r *rand.Rand, id string, withColon bool) *Scenario {
 	for n := 1 + r.Intn(4); len(sc.ASes) < n+1; {
 		sc.ASes = append(sc.ASes, genAS(r, r.Intn(5), withColon, extra))
 	}
+	// exemplar scenarios: measurements inside sampled spans, a view that filters attributes out of the stream
+	exemplars := r.Intn(3) == 0
+	if exemplars {
+		for i := range sc.ASes {
+			if r.Intn(3) > 0 {
+				sc.ASes[i] = finishAS(append(append([]Attr{}, sc.ASes[i]...), filteredAttrs(r)...))
+			}
+		}
+	}
 	// instruments
 	ninst := 1 + r.Intn(4)
 	scopes := []string{"sA", "sB", "sC"}[:1+r.Intn(3)]
-	if r.Intn(8) == 0 {
-		// a second scope with the name and version of sA that differs only in its schema URL
-		sc.Scopes = []ScopeRec{{ID: "sA2", Name: "sA", Version: "vsA", URL: "https://example.com/schema/2"}}
-		scopes = append(append([]string{}, scopes...), "sA2")
+	if r.Intn(6) == 0 {
+		// scopes with the name and version of sA that differ only in schema URL / in attributes
+		scopes = append([]string{}, scopes...)
+		if r.Intn(2) == 0 {
+			sc.Scopes = append(sc.Scopes, ScopeRec{ID: "sA2", Name: "sA", Version: "vsA", URL: "https://example.com/schema/2", Attrs: []Attr{}})
+			scopes = append(scopes, "sA2")
+		}
+		if len(sc.Scopes) == 0 || r.Intn(2) == 0 {
+			sc.Scopes = append(sc.Scopes, ScopeRec{ID: "sA3", Name: "sA", Version: "vsA",
+				Attrs: finishAS([]Attr{{K: []Tok{w("lib"), sep("."), w("kind")}, T: "s", V: "b"}, {K: []Tok{w("n")}, T: "i", V: "3"}})})
+			scopes = append(scopes, "sA3")
+		}
 	}
+	// without the vinst marker series of different instruments can be identical: then all OTel names are distinct
+	// plain words, except that scopes with equal labels deliberately share some
+	sc.NoMark = r.Intn(5) == 0
+	plain := []string{"alpha", "beta", "gamma", "delta", "eps", "zeta"}
 	insts := []Inst{}
 	seen := map[string]bool{}
 	var base []Tok
@@ -296,6 +344,14 @@ func genScenario(r *rand.Rand, id string, withColon bool) *Scenario {
 			}
 		}
 		in := Inst{ID: len(insts) + 1, Scope: pick(r, scopes), Toks: toks, Unit: unit, Kind: pick(r, kinds), Desc: pick(r, descs)}
+		if sc.NoMark {
+			// a plain name: shared only between scopes with equal labels (sA, sA2, sA3), distinct otherwise
+			in.Toks = []Tok{w(plain[len(insts)%len(plain)])}
+			if len(insts) > 0 && strings.HasPrefix(in.Scope, "sA") && strings.HasPrefix(insts[0].Scope, "sA") && r.Intn(2) == 0 {
+				in.Toks, in.Kind, in.Unit = insts[0].Toks, insts[0].Kind, insts[0].Unit
+			}
+			toks = in.Toks
+		}
 		key := in.Scope + "\x00" + strings.ToLower(render(toks))
 		if seen[key] || len(render(toks)) > 200 {
 			continue
@@ -322,7 +378,8 @@ func genScenario(r *rand.Rand, id string, withColon bool) *Scenario {
 		case x < 8:
 			in := insts[r.Intn(next)]
 			b, _ := json.Marshal(in.ID)
-			sc.Ops = append(sc.Ops, Op{Op: "Rec", Inst: b, id: in.ID, AS: 1 + r.Intn(len(sc.ASes)), V: fnum(genValueFor(r, in.Kind))})
+			sc.Ops = append(sc.Ops, Op{Op: "Rec", Inst: b, id: in.ID, AS: 1 + r.Intn(len(sc.ASes)), V: fnum(genValueFor(r, in.Kind)),
+				SP: exemplars && r.Intn(3) > 0})
 		default:
 			sc.Ops = append(sc.Ops, Op{Op: "Scrape"})
 		}
@@ -411,7 +468,33 @@ func classify(res *vh.Result, sc *Scenario) {
 	if sc.Ops[0].Opts.ResConst {
 		res.Count("in-resource-constant-labels", 1)
 	}
-	if len(sc.Scopes) > 0 {
-		res.Count("in-scope-differs-only-in-schema-url", 1)
+	for _, s := range sc.Scopes {
+		if s.URL != "" {
+			res.Count("in-scope-differs-only-in-schema-url", 1)
+		} else {
+			res.Count("in-scope-differs-only-in-attributes", 1)
+		}
+	}
+	if sc.NoMark {
+		res.Count("in-unmarked-scenario", 1)
+	}
+	for _, as := range sc.ASes {
+		n := 63
+		any := false
+		for _, a := range as {
+			if a.F {
+				n += a.N
+				any = true
+			}
+		}
+		switch {
+		case !any:
+		case n < 128:
+			res.Count("in-exemplar-labels-small", 1)
+		case n == 128:
+			res.Count("in-exemplar-labels-at-limit", 1)
+		default:
+			res.Count("in-exemplar-labels-over-limit", 1)
+		}
 	}
 }
